@@ -25,7 +25,7 @@ import (
 type c13Case struct {
 	Tail   []byte `json:"tail"`   // random tail appended to the launch-marker script
 	Hash   string `json:"hash"`   // md5 | sha1 | sha256 | sha512 | nil
-	Mode   string `json:"mode"`   // exact | flip | prefix | extend | random | empty | nil | otherhash
+	Mode   string `json:"mode"`   // exact | flip | prefix | extend | random | empty | nil | otherhash | missing (the file at the command path does not exist) | replaced (the file was overwritten after the digest was taken)
 	Pos    int    `json:"pos"`    // bit position (flip) or length (prefix)
 	Extra  []byte `json:"extra"`  // trailing bytes (extend) / replacement (random)
 	Linger bool   `json:"linger"` // re-check the marker 200 ms later
@@ -47,6 +47,8 @@ func c13Hash(name string) hash.Hash {
 
 var c13Seq int64
 
+var errFileMissing = errors.New("file missing")
+
 func c13Gen(t *rapid.T) any {
 	c := &c13Case{}
 	c.Hash = rapid.SampledFrom([]string{"md5", "sha1", "sha256", "sha512", "sha256", "nil"}).Draw(t, "hash")
@@ -55,7 +57,7 @@ func c13Gen(t *rapid.T) any {
 	} else {
 		c.Tail = rapid.SliceOfN(rapid.Byte(), 0, 80).Draw(t, "tail")
 	}
-	c.Mode = rapid.SampledFrom([]string{"exact", "exact", "flip", "flip", "prefix", "extend", "random", "empty", "nil", "otherhash"}).Draw(t, "mode")
+	c.Mode = rapid.SampledFrom([]string{"exact", "exact", "flip", "flip", "prefix", "extend", "random", "empty", "nil", "otherhash", "missing", "replaced"}).Draw(t, "mode")
 	size := 32
 	if h := c13Hash(c.Hash); h != nil {
 		size = h.Size()
@@ -95,7 +97,7 @@ func c13Run(ci any) (out Outcome) {
 
 	var checksum []byte
 	switch c.Mode {
-	case "exact":
+	case "exact", "missing", "replaced":
 		checksum = append([]byte{}, digest...)
 	case "flip":
 		checksum = append([]byte{}, digest...)
@@ -122,8 +124,17 @@ func c13Run(ci any) (out Outcome) {
 	out.label("mode:%s", c.Mode)
 	out.label("hash:%s", c.Hash)
 
+	// what is on disk when Start runs: for "replaced" a different (still executable) file, for "missing" nothing
+	onDisk := content
+	if c.Mode == "replaced" {
+		onDisk = append(append([]byte{}, script...), []byte("\n# tampered after the checksum was computed\n")...)
+	}
 	var wantErr error
 	switch {
+	case c.Mode == "missing":
+		wantErr = errFileMissing
+	case c.Mode == "replaced" && c.Hash != "nil":
+		wantErr = plugin.ErrChecksumsDoNotMatch
 	case len(checksum) == 0:
 		wantErr = plugin.ErrSecureConfigNoChecksum
 	case c.Hash == "nil":
@@ -143,8 +154,11 @@ func c13Run(ci any) (out Outcome) {
 	}
 
 	for attempt := 0; ; attempt++ {
-		if err := os.WriteFile(exe, content, 0o755); err != nil {
-			panic(err)
+		os.Remove(exe)
+		if c.Mode != "missing" {
+			if err := os.WriteFile(exe, onDisk, 0o755); err != nil {
+				panic(err)
+			}
 		}
 		cmd := exec.Command(exe)
 		cl := plugin.NewClient(&plugin.ClientConfig{
@@ -188,6 +202,9 @@ func c13Run(ci any) (out Outcome) {
 			}
 			// "the corresponding error": the sentinel itself or, where the library
 			// wraps it textually, an error naming it.
+			if wantErr == errFileMissing {
+				return // any error will do for a missing file; nothing may have been executed (checked above)
+			}
 			if !errors.Is(err, wantErr) && !strings.Contains(err.Error(), wantErr.Error()) {
 				out.violate("wrong error for mode %s: got %q, want %q", c.Mode, err, wantErr)
 			}
